@@ -117,6 +117,25 @@ def hygiene(files=None):
     return bad
 
 
+def hygiene_files(rels):
+    """hygiene() for files that are not part of the import graph walk (generated files)."""
+    bad = []
+    for rel in rels:
+        src = strip_comments(open(os.path.join(COQ, rel)).read())
+        depth = 0
+        for ln, line in enumerate(src.split("\n"), 1):
+            if re.match(r"\s*Section\b", line):
+                depth += 1
+            if re.match(r"\s*End\b", line) and depth > 0:
+                depth -= 1
+            for m in HYGIENE_RE.finditer(line):
+                w = m.group(0)
+                if w in ("Hypothesis", "Hypotheses", "Variable", "Variables") and depth > 0:
+                    continue
+                bad.append(f"{rel}:{ln}: {w}")
+    return bad
+
+
 def strip_comments(src):
     out = []
     depth = 0
@@ -175,6 +194,7 @@ class Ctx:
         self.findings = load_findings()
         self._shard = 0
         self.quick = (tier == "quick")
+        self.deferred = []
 
     # ---------------- reporting ----------------
     def log(self, *a):
@@ -268,6 +288,88 @@ class Ctx:
             self.tooling_failure("coqchk", out[-3000:])
         return ok
 
+
+    # ---------------- models generated from the source (translators) ----------------
+    def gen_step(self, key, translate, genprops, trusted, timeout=600):
+        """A model regenerated from /repo's source on this run, plus the proofs that tie it to the hand model.
+
+        translate()  -> {"<Module>.v": text, ...} (files for coq/gen, compiled in the given order); raises any
+                        exception whose class name is Rejected/Abort when the source is outside the accepted fragment.
+        genprops     -> name (without .v) of a file in coq/genprops that imports the generated modules (From VQG) and
+                        contains only Theorems (each followed by Print Assumptions); every Theorem is one obligation.
+        Nothing is reported here: a failure is DEFERRED (see defer_violation) so that the property's own search can
+        first look for a concrete failing input; finish() reports it, with `no-failing-input-found`, only if the
+        run produced no violation with a concrete input.  Returns a dict {status, failed: [theorem names], ...}."""
+        flags = COQ_FLAGS + ["-Q", "genprops", "VQGP"]
+        gp = f"genprops/{genprops}.v"
+        src = strip_comments(open(os.path.join(COQ, gp)).read())
+        spans = [(m.group(1), src.count("\n", 0, m.start()) + 1) for m in re.finditer(r"^\s*(?:Theorem|Example)\s+([\w']+)", src, re.M)]
+        thms = [n for n, _ in spans]
+        self.cov["obligations"] += len(thms)
+        res = {"key": key, "genprops": gp, "theorems": thms, "failed": list(thms), "status": "ok", "axioms": []}
+        try:
+            files = translate()
+        except Exception as ex:  # noqa: fail closed -- anything the translator does not accept
+            res["status"] = "rejected"
+            res["message"] = f"{type(ex).__name__}: {ex}"
+            self.defer_violation(f"translator/{key}/rejected",
+                                 f"the translator for {key} rejects the current source (outside the accepted fragment): {res['message'][:400]}; "
+                                 f"theorems {thms} of {gp} are not established for the code as it is now", res)
+            return res
+        os.makedirs(GEN, exist_ok=True)
+        with open(os.path.join(GEN, f".{key}.lock"), "w") as lock:
+            fcntl.flock(lock, fcntl.LOCK_EX)
+            for name, text in files.items():
+                with open(os.path.join(GEN, name), "w") as fh:
+                    fh.write(text if text.endswith("\n") else text + "\n")
+            bad = hygiene_files(["gen/" + n for n in files]) + hygiene([gp])
+            if bad:
+                res["status"] = "hygiene"
+                res["message"] = "; ".join(bad[:10])
+                self.defer_violation(f"translator/{key}/hygiene", "forbidden vernacular in generated or genprops files: " + res["message"], res)
+                return res
+            for name in files:
+                rc, out = sh(["coqc"] + flags + ["gen/" + name], timeout, cwd=COQ)
+                if rc != 0:
+                    res["status"] = "generated-file-rejected"
+                    res["message"] = out[-3000:]
+                    res["generated"] = {n: t for n, t in files.items()}
+                    self.defer_violation(f"translator/{key}/generated-file-rejected",
+                                         f"coqc rejects the model generated from the source ({name}); theorems {thms} are not established", res)
+                    return res
+            rc, out = sh(["coqc"] + flags + [gp], timeout, cwd=COQ)
+        if rc != 0:
+            res["status"] = "proof-fails"
+            res["coqc_output"] = out[-3000:]
+            res["generated"] = {n: t for n, t in files.items()}
+            m = re.search(r"line (\d+), characters", out)
+            culprit = None
+            if m:
+                ln = int(m.group(1))
+                for n, start in spans:
+                    if start <= ln:
+                        culprit = n
+            res["first_failing_theorem"] = culprit
+            self.defer_violation(f"genproof/{key}",
+                                 f"the model generated from the current source is no longer provably equal to the hand model: "
+                                 f"{gp} fails at theorem {culprit}", res)
+            return res
+        res["failed"] = []
+        for b in parse_assumptions(out):
+            res["axioms"] += b
+        self.cov["discharged"] += len(thms)
+        self.cov["checker_cmd"] += f" && (translator {key}: regenerate coq/gen/{{{','.join(files)}}} from $VQ_REPO/src, coqc them, coqc -Q genprops VQGP {gp})"
+        self.cov["trusted_base"].append(trusted)
+        if res["axioms"]:
+            self.cov["trusted_base"].append(f"axioms reported for {gp}: " + ", ".join(sorted(set(res["axioms"]))))
+        self.cov.setdefault("generated_models", []).append({"key": key, "files": sorted(files), "theorems": thms})
+        return res
+
+    def defer_violation(self, signature, what, replay):
+        """A broken proof / translator obligation: reported by finish() unless a concrete failing input was found."""
+        self.deferred.append((signature, what, replay))
+        self.log("deferred:", what[:300])
+
     # ---------------- correspondence inside Coq ----------------
     def coq_mismatches(self, tag, header, ctype, checker, terms, shard=300, timeout=900):
         """Evaluate `mismatches checker cases` under vm_compute, sharded, in parallel.
@@ -357,7 +459,16 @@ class Ctx:
         if len(self.cov["samples"]) < limit:
             self.cov["samples"].append(s)
 
+    def flush_deferred(self):
+        for sig, what, replay in self.deferred:
+            if self.has_concrete():
+                self.log("(also:", what[:200], ")")
+            else:
+                self.violation(sig, what, replay, False)
+        self.deferred = []
+
     def finish(self):
+        self.flush_deferred()
         os.makedirs(EVIDENCE, exist_ok=True)
         # keep the evidence file inside EVIDENCE.schema.json whatever a property module put in
         levels = ("exploration", "fault_enumeration", "model_checking", "proof", "translation_validation", "other")
@@ -449,5 +560,6 @@ def main(argv):
         ctx.tooling_failure("harness", "".join(traceback.format_exception(type(e), e, e.__traceback__)))
     signal.alarm(0)
     if a.replay:
+        ctx.flush_deferred()
         return 1 if ctx.violations else 0      # a replay never rewrites the evidence file
     return ctx.finish()
